@@ -80,6 +80,7 @@ Scoring criteria
 import (
 	"bytes"
 	"fmt"
+	"math"
 	"os"
 	"strings"
 	"unicode"
@@ -143,6 +144,10 @@ const (
 	// The amount of the extra bonus should be limited so that the gap penalty is
 	// still respected.
 	bonusFirstCharMultiplier = 2
+
+	// The longest pattern whose score is guaranteed to fit in int16 in
+	// FuzzyMatchV2 (bonusBoundary + 2 is the largest bonus for a character)
+	maxPatternLengthV2 = (math.MaxInt16 - (bonusBoundary+2)*(bonusFirstCharMultiplier-1)) / (scoreMatch + bonusBoundary + 2)
 )
 
 var (
@@ -444,8 +449,9 @@ func FuzzyMatchV2(caseSensitive bool, normalize bool, forward bool, input *util.
 	}
 
 	// Since O(nm) algorithm can be prohibitively expensive for large input,
-	// we fall back to the greedy algorithm.
-	if slab != nil && N*M > cap(slab.I16) {
+	// we fall back to the greedy algorithm. We also do so when the pattern is
+	// so long that the scores, which are kept in int16, could overflow.
+	if slab != nil && N*M > cap(slab.I16) || M > maxPatternLengthV2 {
 		return FuzzyMatchV1(caseSensitive, normalize, forward, input, pattern, withPos, slab)
 	}
 
